@@ -17,5 +17,29 @@ def _fn_tree(src):
     return None
 
 
-def classify_c01(src, detail):
+def classify_c01(src, detail, inputs=None, mode='to_graph', feats=()):
+  """Returns the key of the recorded mechanism that explains the divergence, or None.
+
+  lambda-called-later-closure-not-live: liveness deliberately ignores lambdas as closures (liveness.py lamba_check:
+  'assumed to be used only in the place where they are defined'). The classifier does not guess from the shape of the
+  program: it repeats the differential run with that one exception switched off in the running interpreter (a patch
+  of the class attribute, nothing on disk) and attributes the divergence to the mechanism only if it disappears.
+  """
+  tree = _fn_tree(src)
+  if tree is None or inputs is None:
+    return None
+  if not any(isinstance(n, ast.Lambda) for n in ast.walk(tree)):
+    return None
+  from malt.pyct.static_analysis import liveness
+  from vf import stream
+  real = liveness.Analyzer.lamba_check
+  liveness.Analyzer.lamba_check = lambda self, fn_ast_node: False
+  try:
+    r = stream.diff_case(src, inputs, mode, list(feats or []))
+  except Exception:  # pylint:disable=broad-except
+    return None
+  finally:
+    liveness.Analyzer.lamba_check = real
+  if r['verdict'] == 'ok':
+    return 'lambda-called-later-closure-not-live'
   return None
